@@ -15,8 +15,8 @@ RULE = ("one case = one two-endpoint session over a random stack (loopback TCP |
         "reset injection, then a random shutdown (shutdown(SHUT_WR), TLS close_notify, free, BEV_FINISHED flush; drained or abrupt); "
         "non-trivial = at least one byte was delivered and the session reached its shutdown verdict; distinct = hash of the configuration")
 STEPS = [
-    dict(flavor="asan", harness="h_bev", args=["--mode", "stream"], cases=dict(quick=480, thorough=2400), timeout=dict(quick=600, thorough=7200), env=dict(ASAN_OPTIONS=ASAN)),
-    dict(flavor="asan", harness="h_bev", args=["--mode", "stream", "--arg", "pth"], cases=dict(quick=80, thorough=240), seed_off=101,
+    dict(flavor="asan", harness="h_bev", args=["--mode", "stream"], cases=dict(quick=416, thorough=1200), timeout=dict(quick=600, thorough=7200), env=dict(ASAN_OPTIONS=ASAN)),
+    dict(flavor="asan", harness="h_bev", args=["--mode", "stream", "--arg", "pth"], cases=dict(quick=64, thorough=120), seed_off=101,
          timeout=dict(quick=600, thorough=7200), env=dict(ASAN_OPTIONS=ASAN)),
 ]
 REQUIRED = ["cases", "sessions_with_delivery", "sessions_with_reverse_delivery", "base_tcp", "base_unix", "base_pair",
